@@ -83,8 +83,8 @@ func composeMethod(ctx *Ctx, ca ctorAlt, name string, opaque ...string) (Val, *E
 		recv = ifc.Dyn
 	}
 	args := []Val{recv}
-	for _, p := range m.Params[1:] {
-		args = append(args, symVal(p.Name(), p.Type()))
+	for i, p := range m.Params[1:] {
+		args = append(args, symVal(paramName(m, i+1), p.Type()))
 	}
 	ev.stack = nil
 	r := ev.Call(m, args, nil, &st)
